@@ -167,9 +167,22 @@ def shrink_candidates(inp):
 MANIFEST = {
     "level_claimed": {
         "category": "proof",
-        "text": "see coq/C07/README.md",
+        "text": ("Coq theorems over ALL histories of Ethereum and Cosmos-signed txs (any blocks, duplicates, gaps, reordering, "
+                 "multi-message txs, failing executions): C07_accept_iff_nonce_and_chain / C07_accept_multi_message (accepted iff "
+                 "signature recovers, carried chain id is this chain's, nonce == running sequence; atomic per tx), "
+                 "C07_sequence_plus_one_per_accepted (+1 per accepted message whatever execution does; the msg-server bracket "
+                 "SetNonce(n)..SetNonce(n+1) reproduces the ante value), C07_nonce_order_shared_sequence (per account the accepted "
+                 "sequence numbers are s0,s0+1,... across both tx families), C07_at_most_once (no tx hash executes twice), "
+                 "C07_create_address (deployed at the address of signer and TRANSACTION nonce). The model runs the decorator chain "
+                 "re-extracted from NewAnteHandlerEVM on every run (C07_holds_for_current_tree) together with AST-level facts about "
+                 "the nonce check, the increment, the signer construction and the msg-server bracket; it is compared with real "
+                 "DeliverTx traces and the proved-sound checker Pb is evaluated on those traces."),
         "design_ref": "DESIGN.md §5 C07",
     },
-    "level_note": "",
-    "technique": "Coq proof (induction over tx histories) over generated ante-chain facts + differential correspondence on ABCI traces",
+    "level_note": ("Hypothesis hash_binding (equal tx hash => equal signer and nonce: keccak/RLP not modelled). ECDSA recovery, the "
+                   "balance/fee decorators (m_funded) and the EVM interpreter (m_exec) are parameters of the model, supplied per "
+                   "message by the driver. Trusted: Coq kernel + vm_compute, the go/ast extractor, the Go driver (go-ethereum "
+                   "crypto for signing/tampering/raw recovery, ABCI event parsing), the plugin's rendering. CheckTx/mempool paths "
+                   "are not driven (DeliverTx only)."),
+    "technique": "Coq proof (induction over tx histories, sublist/NoDup argument) over generated ante-chain facts + differential correspondence on ABCI traces",
 }
